@@ -9,8 +9,9 @@
 EXTENDS Naturals, FiniteSets, TLC, Json
 
 CONSTANTS Emit
-VARIABLES layout, version, lintUse, emptyReq, emptyResp, ignoreFile, breakingUse, second
-vars == <<layout, version, lintUse, emptyReq, emptyResp, ignoreFile, breakingUse, second>>
+VARIABLES layout, version, lintUse, emptyReq, emptyResp, ignoreFile, breakingUse, second,
+          deps   \* what the first module depends on: nothing, a pinned module, or a pinned module whose own dependency is pinned too
+vars == <<layout, version, lintUse, emptyReq, emptyResp, ignoreFile, breakingUse, second, deps>>
 Init == /\ layout \in {"single", "work"}
         /\ version \in {"v1", "v1beta1"}
         /\ lintUse \in {"default", "MINIMAL", "BASIC"}
@@ -19,6 +20,9 @@ Init == /\ layout \in {"single", "work"}
         /\ breakingUse \in {"default", "WIRE"}
         /\ second \in {"none", "noconfig", "configured"}
         /\ (layout = "single" <=> second = "none")
+        /\ deps \in {"none", "direct", "transitive"}
+        \* dependencies are explored on the plain lint / breaking settings
+        /\ (deps # "none" => (lintUse = "default" /\ ~emptyReq /\ ~emptyResp /\ ~ignoreFile /\ breakingUse = "default"))
 Next == UNCHANGED vars
 Spec == Init /\ [][Next]_vars
 
@@ -28,8 +32,14 @@ Effective(m) ==
   IF m = "m1" THEN [lintUse |-> lintUse, emptyReq |-> emptyReq, emptyResp |-> emptyResp, ignoreFile |-> ignoreFile, breakingUse |-> breakingUse, version |-> version]
   ELSE IF second = "configured" THEN [lintUse |-> "MINIMAL", emptyReq |-> FALSE, emptyResp |-> TRUE, ignoreFile |-> FALSE, breakingUse |-> "default", version |-> "v1"]
   ELSE [lintUse |-> "default", emptyReq |-> FALSE, emptyResp |-> FALSE, ignoreFile |-> FALSE, breakingUse |-> "default", version |-> "v1"]
+\* every pin of the old buf.lock is a pin of the new one (same module, same commit), also the pins of modules that no
+\* buf.yaml names under deps
+PinsBefore == CASE deps = "none" -> {} [] deps = "direct" -> {"direct"} [] deps = "transitive" -> {"direct", "transitive"}
+PinsAfter == PinsBefore
+DeclaredDepsAfter == IF deps = "none" THEN {} ELSE {"direct"}
+PinsPreserved == PinsBefore \subseteq PinsAfter /\ DeclaredDepsAfter \subseteq PinsAfter
 \* the two switches are independent: no migration rule may tie them together
 SwitchesIndependent == \A m \in Modules : Effective(m).emptyReq \in BOOLEAN /\ Effective(m).emptyResp \in BOOLEAN
 EmitCase == Emit => PrintT(<<"CASE", ToJson([layout |-> layout, version |-> version, lintUse |-> lintUse, emptyReq |-> emptyReq, emptyResp |-> emptyResp,
-   ignoreFile |-> ignoreFile, breakingUse |-> breakingUse, second |-> second, modules |-> [m \in Modules |-> Effective(m)]])>>)
+   ignoreFile |-> ignoreFile, breakingUse |-> breakingUse, second |-> second, deps |-> deps, pins |-> PinsAfter, declared |-> DeclaredDepsAfter, modules |-> [m \in Modules |-> Effective(m)]])>>)
 =============================================================================
